@@ -493,7 +493,11 @@ def r01_5_scalar(ctx):
     rec = fn(P, REC + 'recognize')
     et2 = rec.fi.params[2]
     disp = None
-    for c in rec.calls('__recognize_scalar'):
+    # the dispatch may go through a local (`recognize_as = self.__recognize_scalar` ... `recognize_as(node, t)`): the condition
+    # under which the scalar recogniser is *selected* is what counts
+    sel = [n for n in rec.walk() if isinstance(n, ast.Assign) and isinstance(n.value, ast.Attribute)
+           and n.value.attr.endswith('__recognize_scalar')]
+    for c in list(rec.calls('__recognize_scalar')) + sel:
         for g, pol in rec.guards(c):
             if pol and isinstance(g, ast.Compare) and len(g.ops) == 1 and isinstance(g.ops[0], ast.In) \
                     and norm(g.left) == et2 and isinstance(g.comparators[0], (ast.Tuple, ast.List, ast.Set)):
@@ -534,8 +538,10 @@ def branch_nodes(f: Fn, pred) -> Set[int]:
 
 
 def atom_is(atoms, text: str, pol: bool, copies: Optional[Copies] = None) -> bool:
+    """is the condition `text` known to be `pol`?  Compared in canonical form: `x not in y` being False is `x in y` being True"""
+    want = canon_atom(ast.parse(text, mode='eval').body, pol)
     for g, p in atoms:
-        if p == pol and (norm(g) == text or (copies is not None and copies.xnorm(g) == text)):
+        if canon_atom(g, p) == want or (copies is not None and canon_atom(copies.expand(g), p) == want):
             return True
     return False
 
@@ -1419,10 +1425,15 @@ def r03_6_foreign_tags(ctx):
     core_f = branch_nodes(f, lambda a: atom_is(a, "%s.tag.startswith('tag:yaml.org,2002')" % node, False)
                           or atom_is(a, "%s.tag.startswith('tag:yaml.org,2002:')" % node, False))
     reg_t = branch_nodes(f, lambda a: atom_is(a, '%s.tag in self.__registered_classes' % node, True))
-    mem = branch_nodes(f, lambda a: any(
-        isinstance(g, ast.Compare) and len(g.ops) == 1
-        and ((isinstance(g.ops[0], ast.NotIn) and not p) or (isinstance(g.ops[0], ast.In) and p))
-        and f.copies.xnorm(g.left) == 'self.__registered_classes[%s.tag]' % node for g, p in a))
+    def _member(a):
+        for g, p in a:
+            g2 = f.copies.expand(g)
+            t, pol = canon_atom(g2, p)
+            if pol and isinstance(g2, ast.Compare) and len(g2.ops) == 1 and isinstance(g2.ops[0], (ast.In, ast.NotIn)) \
+                    and norm(g2.left) == 'self.__registered_classes[%s.tag]' % node:
+                return True
+        return False
+    mem = branch_nodes(f, _member)
     for ret in finals:
         rn = f.nid(ret)
         var = norm(ret.value.elts[0])
